@@ -18,7 +18,7 @@ from vf.common.harness import Result
 
 ID = "C07"
 RULE = (
-    "Generated class models (Evt/Jet/Trk with methods val/jets/trks/obj and a func_adl_callable function fn): every "
+    "Generated class models (Evt/Jet/Trk with methods val/jets/trks/obj and func_adl_callable functions fn -> float, mk -> Trk, mks -> Iterable[Trk] whose results are used as receivers / sources of further typed call sites): every "
     "signature has 0-4 parameters with any trailing subset defaulted (str/int/float/bool defaults, in a quarter of the signatures the first parameters are positional-only (before `/`) and / or the last ones keyword-only (after `*`, defaults need not be trailing); "
     "incl. negative numbers and quotes); the method name val exists on all three classes with different signatures and is, per case, optionally renamed to the name of a stream member (value, Select, Where, MetaData, First, Count, item_type, query_ast...); methods may be declared @staticmethod or @classmethod. Call "
     "shapes: k positional + any subset of the remaining parameters by keyword in any order + omitted defaults, plus shapes "
@@ -133,6 +133,16 @@ def _val(draw, var, cls, depth, model, names, miss):
         return ["site", ["first", src], child, "val", p3, k3]
     if c == 6:
         pos, kw = draw(_shape(model["fn"], arg, miss))
+        z = draw(st.integers(0, 3))
+        if z == 0:
+            # a registered function that returns a typed object: the method called on its result is a typed call site too
+            p3, k3 = draw(_shape(model["Trk.val"], arg, miss))
+            return ["site", ["fn", pos, kw, "mk"], "Trk", "val", p3, k3]
+        if z == 1:
+            # ... or a typed collection: the operator's lambda is followed with the element type
+            v2 = draw(st.sampled_from(names))
+            inner = draw(_val(v2, "Trk", depth - 1, model, names, miss))
+            return ["count", ["op", "Select", ["fn", pos, kw, "mks"], v2, inner]]
         return ["fn", pos, kw]
     if c == 7 and cls == "Jet":
         pos, kw = draw(_shape(model["Jet.obj"], arg, miss))
@@ -278,6 +288,8 @@ def build_model(model, alias="val", kinds=None):
                     recv = kind.split(":")[1] if kind.startswith("recv:") else "self"  # nothing forces the receiver to be spelled self
                     src.append(f"    def {meth}({recv}{', ' + ps if ps else ''}) -> '{ret[key]}': ...")
     src.append(f"def fn({params(model['fn'], 'fn')}) -> float: ...")
+    src.append(f"def mk({params(model['fn'], 'mk')}) -> 'Trk': ...")
+    src.append(f"def mks({params(model['fn'], 'mks')}) -> 'Iterable[Trk]': ...")
     exec("\n".join(src), ns)
     return ns
 
@@ -305,9 +317,9 @@ def render(ir, ns, mode, consts):
             # fetched from the class have none left
             skip = 1 if inspect.isfunction(inspect.getattr_static(ns[cls], meth)) else 0
         else:
-            _, pos, kw = ir
-            func = ns["fn"]
-            head = "fn"
+            pos, kw = ir[1], ir[2]
+            head = ir[3] if len(ir) > 3 else "fn"
+            func = ns[head]
             skip = 0
         if mode == "written":
             args = [R(a) for a in pos] + [f"{n}={R(a)}" for n, a in kw]
@@ -385,6 +397,8 @@ def check(case) -> Result:
 
     ns = build_model(case["model"], case.get("alias", "val"), case.get("kinds"))
     func_adl_callable()(ns["fn"])
+    func_adl_callable()(ns["mk"])
+    func_adl_callable()(ns["mks"])
 
     class DS(EventDataset):
         async def execute_result_async(self, a, title=None):
